@@ -4,7 +4,8 @@
    session core tied byte for byte to runtime/session.cpp.  The general theorems are for EVERY schema `sc`,
    EVERY decode function `decode` (Message::factory), EVERY text `fl`, EVERY time `now`, EVERY session
    state `s` and EVERY inbound byte string `raw`.
-     raw_seq raw     = the number Session::process scans from the raw bytes (first "34=", up to the next SOH)
+     raw_seq raw     = the number Session::process scans from the raw bytes (first SOH "34=" since /repo 57dfe06,
+                       up to the next SOH; before: first "34=" anywhere = raw_seq_with pat_34_orig)
      field_seq m     = the MsgSeqNum field of the decoded message
      delivered evs   = the events contain a DELIVER (handle_application passed the message to the router)
      checked m       = the message type is not Reject (3: handle_reject does not call enforce at all),
@@ -16,7 +17,8 @@
    oracle c19_ok; the same histories are replayed on the real code by the suite. *)
 From Coq Require Import NArith ZArith List Bool String.
 From F8 Require Import Sess.Bytes Sess.Msg Sess.Persist Sess.Session Sess.Wire
-  Sess.SendLemmas C19.Run19 C19.Spec_C19 C19.Witness19 C19.DeliverProofs C19.ResendWire C19.WitnessProofs.
+  Sess.SessLemmas Sess.SendLemmas Sess.SimpleCodec C19.Run19 C19.Spec_C19 C19.CodecDecode C19.Witness19 C19.DeliverProofs C19.ResendWire
+  C19.GateProofs C19.WitnessProofs.
 Import ListNotations.
 Local Open Scope string_scope.
 Local Open Scope list_scope.
@@ -36,7 +38,7 @@ Theorem c19_delivery_partial :
 Proof. exact delivery_partial. Qed.
 Print Assumptions c19_delivery_partial.
 
-(* The same without the hypothesis, on the number process really uses (this is what c19_34_refuted exploits). *)
+(* The same without the hypothesis, on the number process really uses. *)
 Theorem c19_delivery_rawseq :
   forall sc decode fl now raw s q m r s' e,
   raw_seq raw = Some q -> decode raw = DecOk m ->
@@ -46,6 +48,45 @@ Theorem c19_delivery_rawseq :
   beq (m_type m) mt_sequence_reset = false /\ inseq s q m.
 Proof. exact process_delivered. Qed.
 Print Assumptions c19_delivery_rawseq.
+
+(* THE SCAN LEMMA (after the repair of F24): in a stream of tag=value tokens whose values contain no SOH the first
+   SOH "34=" is the first token after the leading one whose tag is 34, and the number read is its value. *)
+Theorem c19_scan_is_token :
+  forall t0 toks, forallb tok_ok (t0 :: toks) = true ->
+  raw_seq (enc_toks (t0 :: toks)) =
+  match tok_get (dec T_MsgSeqNum) toks with Some v => Some (atoi_u v 0) | None => None end.
+Proof. exact raw_seq_tokens. Qed.
+Print Assumptions c19_scan_is_token.
+
+(* c19_delivery_partial AT FULL STRENGTH, without the raw = field hypothesis: for every message that is a stream of
+   tokens (values without SOH, tags canonical decimals: tok_ok19) and every decoder that takes the header's
+   MsgSeqNum from the first token with tag 34 (seq_from_token; Sess.SimpleCodec is one: next theorem), the number
+   process gates on IS the decoded MsgSeqNum, hence a delivery happens only in sequence.  What escapes is exactly
+   a value containing SOH, i.e. the content of a data field: c19_34_data_refuted. *)
+Theorem c19_delivery_tokens :
+  forall sc decode fl now t0 toks s m r s' e,
+  seq_from_token decode -> forallb tok_ok19 (t0 :: toks) = true ->
+  decode (enc_toks (t0 :: toks)) = DecOk m ->
+  process sc decode fl now (enc_toks (t0 :: toks)) s = (r, s', e) -> delivered e = true ->
+  is_established (s_state s) = true /\
+  (s_state s = st_logon_received \/ compid_pass s m = true) /\
+  (field_seq m = s_next_recv s \/
+   (field_seq m < s_next_recv s /\ possdup_of m = true /\ orig_after m = false)).
+Proof. exact delivery_tokens. Qed.
+Print Assumptions c19_delivery_tokens.
+
+Theorem c19_gate_is_msgseqnum :
+  forall decode t0 toks m,
+  seq_from_token decode -> forallb tok_ok19 (t0 :: toks) = true -> decode (enc_toks (t0 :: toks)) = DecOk m ->
+  (raw_seq (enc_toks (t0 :: toks)) = Some (field_seq m) /\ get_field T_MsgSeqNum (m_hdr m) <> None) \/
+  (raw_seq (enc_toks (t0 :: toks)) = None /\ get_field T_MsgSeqNum (m_hdr m) = None).
+Proof. exact gate_is_msgseqnum. Qed.
+Print Assumptions c19_gate_is_msgseqnum.
+
+Theorem c19_simple_decode_seq_from_token :
+  forall sc fl, In T_MsgSeqNum (sc_hdr_mand sc) -> seq_from_token (simple_decode sc fl).
+Proof. exact simple_decode_seq_from_token. Qed.
+Print Assumptions c19_simple_decode_seq_from_token.
 
 (* A higher number (established session, CompIDs pass, checked type): never delivered; in state `continuous` the
    first thing put on the wire is send(generate_resend_request(expected, 0)); in every other state process
@@ -105,7 +146,8 @@ Proof. exact fatal_branch. Qed.
 Print Assumptions c19_fatal_branch.
 
 (* A message that fails decoding is never delivered; unless the exception forces logoff it is answered with
-   send(generate_reject(raw number, text)), process returns true and the expected number is incremented. *)
+   send(generate_reject(raw number, text)), process returns true, the expected number is incremented and (since
+   /repo beb4ce7) the control record is updated. *)
 Theorem c19_decode_failure :
   forall sc decode fl now raw s q text force,
   decode raw = DecExc text force -> raw_seq raw = Some q ->
@@ -113,7 +155,7 @@ Theorem c19_decode_failure :
   (force = false ->
    process sc decode fl now raw s =
    (let '(_, s2, e2) := send sc now s (generate_reject sc q (Some text) None) 0 false in
-    (true, w_next_recv (s_next_recv s + 1) s2, e2))) /\
+    (true, update_persist_seqnums (w_next_recv (s_next_recv s + 1) s2), e2))) /\
   (force = true -> process sc decode fl now raw s = catch19 sc now q None (inr (Exc text true), s, [])).
 Proof. exact decode_failure. Qed.
 Print Assumptions c19_decode_failure.
@@ -131,7 +173,7 @@ Theorem c19_no34_note :
   find_after pat_34 raw = None ->
   process sc decode fl now raw s =
   (let '(_, s2, e2) := send sc now s (generate_reject sc 0 (Some (fmt2 txt_invmsg raw txt_at fl)) None) 0 false in
-   (true, w_next_recv (s_next_recv s + 1) s2, e2)).
+   (true, update_persist_seqnums (w_next_recv (s_next_recv s + 1) s2), e2)).
 Proof. exact no34_note. Qed.
 Print Assumptions c19_no34_note.
 
@@ -142,16 +184,29 @@ Theorem c19_after_stop_nothing :
 Proof. exact after_stop_nothing. Qed.
 Print Assumptions c19_after_stop_nothing.
 
-(* F24.  A header value containing "34=" before the real field: `35=D|49=SRV|56=CLI|115=X34=2|34=7|...` in state
-   continuous with expected number 2 is DELIVERED although its MsgSeqNum is 7; the oracle rejects the history. *)
-Theorem c19_34_refuted :
+(* F24 as it was before /repo 57dfe06 (search for "34=" anywhere, process_with .. pat_34_orig): `35=D|49=SRV|56=CLI|
+   115=X34=2|34=7|...` in state continuous with expected number 2 was DELIVERED although its MsgSeqNum is 7; with the
+   repaired search the same message is gated on 7: not delivered, ResendRequest(2..). *)
+Theorem c19_34_orig_refuted :
   exists (s : sess) (raw : list N) (m : msg),
-    dec0 raw = DecOk m /\ field_seq m = 7 /\ raw_seq raw = Some 2 /\
+    dec0 raw = DecOk m /\ field_seq m = 7 /\ raw_seq_with pat_34_orig raw = Some 2 /\
     s_state s = st_continuous /\ s_next_recv s = 2 /\
-    delivered (p_evs (proc raw s)) = true /\
-    exists ops, c19_ok sc0 ops (run0 ops) = false.
-Proof. exact refuted_34. Qed.
-Print Assumptions c19_34_refuted.
+    delivered (p_evs (proc_orig raw s)) = true /\
+    raw_seq raw = Some 7 /\ delivered (p_evs (proc raw s)) = false /\ resend_from 2 (p_evs (proc raw s)) = true.
+Proof. exact refuted_34_orig. Qed.
+Print Assumptions c19_34_orig_refuted.
+
+(* F24, what is left: SOH "34=2" inside the content of a data field in front of the MsgSeqNum field
+   (`...|90=6|91=X<SOH>34=2|34=7|...`, decoder = the Codec group's model of Message::factory, `proc_c`, `run0c`): the
+   message is decoded (MsgSeqNum 7), gated on 2 and DELIVERED at expected 2; the oracle rejects the history. *)
+Theorem c19_34_data_refuted :
+  exists (s : sess) (raw : list N) (m : msg),
+    dec0c raw = DecOk m /\ field_seq m = 7 /\ raw_seq raw = Some 2 /\
+    s_state s = st_continuous /\ s_next_recv s = 2 /\
+    delivered (p_evs (proc_c raw s)) = true /\
+    exists ops, c19_ok sc0 lens0 ops (run0c ops) = false.
+Proof. exact refuted_34_data. Qed.
+Print Assumptions c19_34_data_refuted.
 
 (* F26.  A second message above the expected number while the resend is pending (state resend_request_sent): the
    session is stopped with nothing on the wire instead of the message being held. *)
@@ -160,7 +215,7 @@ Theorem c19_second_gap_refuted :
     dec0 raw = DecOk m /\ raw_seq raw = Some (field_seq m) /\
     s_state s = st_resend_request_sent /\ s_next_recv s < field_seq m /\
     proc raw s = (false, stop s, []) /\
-    exists ops, c19_ok sc0 ops (run0 ops) = false.
+    exists ops, c19_ok sc0 lens0 ops (run0 ops) = false.
 Proof. exact refuted_second_gap. Qed.
 Print Assumptions c19_second_gap_refuted.
 
@@ -171,11 +226,11 @@ Theorem c19_no_logout_refuted :
      dec0 raw = DecOk m /\ raw_seq raw = Some (field_seq m) /\
      s_state s = st_continuous /\ field_seq m < s_next_recv s /\ possdup_of m = false /\
      proc raw s = (false, stop s, []) /\
-     exists ops, c19_ok sc0 ops (run0 ops) = false) /\
+     exists ops, c19_ok sc0 lens0 ops (run0 ops) = false) /\
   (exists (s : sess) (raw : list N) (m : msg),
      dec0 raw = DecOk m /\ s_state s = st_continuous /\ pr_ec (s_par s) = true /\ compid_pass s m = false /\
      proc raw s = (false, stop s, []) /\
-     exists ops, c19_ok sc0 ops (run0 ops) = false).
+     exists ops, c19_ok sc0 lens0 ops (run0 ops) = false).
 Proof. exact refuted_no_logout. Qed.
 Print Assumptions c19_no_logout_refuted.
 
@@ -186,26 +241,31 @@ Theorem c19_no34_witness :
   existsb (fun e => match e with
                     | EOut o => beq (val (fld T_MsgType (tokens o))) [51] && beq (val (fld T_RefSeqNum (tokens o))) [48]
                     | _ => false end) (p_evs (proc raw_no34 s_cont)) = true /\
-  c19_ok sc0 ops_no34 (run0 ops_no34) = true.
+  c19_ok sc0 lens0 ops_no34 (run0 ops_no34) = true.
 Proof. exact wno34. Qed.
 Print Assumptions c19_no34_witness.
 
 (* Non-vacuity: ordinary traffic meets the hypotheses of c19_delivery_partial and IS delivered (number 2 at
    expected 2; duplicate 2 with PossDupFlag and an earlier OrigSendingTime at expected 3); a gap is answered
    with ResendRequest(5..); a too-low Logon in state logon_received is answered with a Logout; the oracle
-   accepts these histories; the side conditions of c19_high_continuous_wire hold for the witness schema/session. *)
+   accepts these histories; the side conditions of c19_high_continuous_wire hold for the witness schema/session; the hypotheses of
+   c19_delivery_tokens (MsgSeqNum mandatory, a token stream with canonical tags) are met by the same ordinary message. *)
 Theorem c19_delivery_nonvacuous :
   (decoded_seq (order_msg "2" []) = Some 2 /\ raw_seq (order_msg "2" []) = Some 2 /\ s_next_recv s_cont = 2 /\
    delivered (p_evs (proc (order_msg "2" []) s_cont)) = true /\
    decoded_seq (order_msg "2" dup_hdr) = Some 2 /\ raw_seq (order_msg "2" dup_hdr) = Some 2 /\ s_next_recv s_cont3 = 3 /\
    delivered (p_evs (proc (order_msg "2" dup_hdr) s_cont3)) = true) /\
-  (c19_ok sc0 ops_good (run0 ops_good) = true /\
+  (c19_ok sc0 lens0 ops_good (run0 ops_good) = true /\
    has_deliver (nth_events 2 (run0 ops_good)) = true /\
    has_deliver (nth_events 3 (run0 ops_good)) = true /\
    has_deliver (nth_events 5 (run0 ops_good)) = false /\
    resend_from 5 (nth_events 5 (run0 ops_good)) = true /\
-   c19_ok sc0 ops_logon_low (run0 ops_logon_low) = true /\
+   c19_ok sc0 lens0 ops_logon_low (run0 ops_logon_low) = true /\
    has_out [53] (last_events (run0 ops_logon_low)) = true) /\
-  (wf_schema sc0 = true /\ knows_rr sc0 /\ wf_sess s_cont = true /\ s_closed s_cont = false /\ s_batch s_cont = []).
-Proof. exact (conj wdeliver (conj wgood sc0_wire_ok)). Qed.
+  (wf_schema sc0 = true /\ knows_rr sc0 /\ wf_sess s_cont = true /\ s_closed s_cont = false /\ s_batch s_cont = []) /\
+  (In T_MsgSeqNum (sc_hdr_mand sc0) /\
+   forallb tok_ok19 toks_order2 = true /\ enc_toks toks_order2 = order_msg "2" [] /\
+   decoded_seq (enc_toks toks_order2) = Some 2 /\
+   delivered (p_evs (proc (enc_toks toks_order2) s_cont)) = true).
+Proof. exact (conj wdeliver (conj wgood (conj sc0_wire_ok wtokens))). Qed.
 Print Assumptions c19_delivery_nonvacuous.
